@@ -64,6 +64,47 @@ def rule_r1(chk, db):
                 "bytes are compared with an ordering relation: matching is not data-independent")
 
 
+def rule_r1b(chk, db):
+    """every other place of the pattern module that singles out a wildcard byte knows both: a scan that looks for `*` only (a literal-prefix
+    shortcut, a 'has wildcards' test) treats `?` as a literal character"""
+    n = 0
+    roots = {}
+    for b in db.bodies.values():
+        if b.crate != "s3s_policy" or not b.name.startswith(P) or "::tests::" in b.name:
+            continue
+        r = db.root_of(b)
+        if short(r.name) == "match_pattern":
+            continue
+        cs = set()
+        for bi, si, st in b.stmts():
+            rv = st["rv"]
+            if rv["k"] == "bin" and rv["op"] in ("Eq", "Ne"):
+                for o in rv["ops"]:
+                    if isinstance(o, dict) and o.get("c") == "int" and o.get("ty") == "u8":
+                        cs.add(int(o["v"]))
+        for bi in b.live_blocks():
+            t = b.blocks[bi]["term"]
+            if t["k"] == "switch":
+                p = flow.op_place(t["discr"])
+                if p is not None and b.locals[p["l"]] in ("u8", "&u8"):
+                    cs |= {int(v) for v, _ in t["targets"]}
+            if t["k"] == "call" and short(callee_def(t)) in ("memchr", "contains", "position", "find", "split", "starts_with", "ends_with", "rfind"):
+                for a in t["args"]:
+                    c = flow.const_of(b, a)
+                    if c is not None and c.get("c") == "int" and c.get("ty") in ("u8", "char"):
+                        cs.add(int(c["v"]))
+                    elif c is not None and c.get("c") in ("str", "bstr") and c["v"] in ("*", "?"):
+                        cs.add(ord(c["v"]))
+        if cs & {42, 63}:
+            roots.setdefault(r.name, [set(), b, None])[0].update(cs & {42, 63})
+    for name, (cs, b, _) in sorted(roots.items()):
+        n += 1
+        chk.verdict(cs == {42, 63}, "R1", "wildcards-agree@%s" % short(name), b.loc(),
+                    "%s singles out %s but not %s: the two wildcards are not treated alike outside the matcher" % (
+                        short(name), [chr(c) for c in sorted(cs)], [chr(c) for c in sorted({42, 63} - cs)]))
+    chk.stats["wildcard_sites_outside_matcher"] = n
+
+
 def rule_r2(chk, db):
     pp = db.body(P + "PatternSet::parse_pattern")
     if pp is None:
@@ -418,6 +459,7 @@ def run(chk, db, tier):
     chk.rule("R5", "serde shape agreement of the hand-written (de)serialisers: visitor methods and the variant each builds")
     chk.rule("R6", "strictness attributes: only rename / rename_all / flatten / skip_serializing_if = Option::is_none in the policy model")
     chk.guard("R1", rule_r1, db)
+    chk.guard("R1", rule_r1b, db)
     chk.guard("R2", rule_r2, db)
     chk.guard("R3", rule_r3, db)
     chk.guard("R4", rule_r4, db)
